@@ -11,6 +11,8 @@ open Aqv Aqv.Proto Aqv.Net
   hmsg <code> <size> <decodes>                    aqua handleMsg front
   phs  <code> <size> <decodes>                    readProtocolHandshake front
   hs   <a|r> <plainSize> <conn> <d1> <d2> <rlp>   readHandshakeMsg size logic
+  idv  <id>                                       NodeID.Pubkey / validateComplete: identity is a curve point
+  auth <id> <ecdhOk> <recOk>                      responder handleAuthMsg for a claimed identity
 -/
 
 def natOf (s : String) : Nat := s.toNat?.getD 0
@@ -256,6 +258,21 @@ def handle (l : String) : String :=
   | ["phs", code, size, dec] =>
     let m := classOf (readProtoHandshake (fun _ => dec = "1") { code := natOf code, size := natOf size, payload := List.replicate (min (natOf size) 64) 0 })
     verdict m go (go != "panic" && (natOf size ≤ baseProtocolMaxMsgSize || go == "toolarge")) "oversize-or-panic-in-proto-handshake"
+  | ["idv", hex] =>
+    match bytesOfHex hex with
+    | none => "bad-op\tagree"
+    | some id =>
+      let m := if idOnCurve id then "1" else "0"
+      -- Spec: an identity that is not a point of the curve must never be accepted; refusing more is harmless.
+      verdict m go (go == "0") "off-curve-identity-accepted"
+  | ["auth", hex, ecdhOk, recOk] =>
+    match bytesOfHex hex with
+    | none => "bad-op\tagree"
+    | some id =>
+      let P : AuthPrims := { validID := idOnCurve, ecdh := fun _ => if ecdhOk = "1" then some (List.replicate 32 1) else none,
+                             recover := fun _ _ => if recOk = "1" then some (List.replicate 65 4) else none }
+      let m := classOf (handleAuthMsg P { sig := List.replicate 65 0, pub := id, nonce := List.replicate 32 2 })
+      verdict m go (go == "err") "responder-derived-secrets-for-an-off-curve-identity"
   | ["hs", k, ps, conn, d1, d2, rlp] =>
     match bytesOfHex conn with
     | none => "bad-op\tagree"
